@@ -818,3 +818,86 @@ func gwCert(c *core.Ctx) {
 	}
 	c.Check(n == 2, "applyCertRef assignment sites", c.Pos(fn.Pos()), "", fmt.Sprintf("%d (reviewed: matching and fallback)", n))
 }
+
+func init() {
+	addRule("C16", &core.Rule{ID: "C16.rebalance-structure", Floor: 9, Run: rebalanceStructure,
+		Doc: "Structure of RebalanceWeight around the (undecided) arithmetic: the replica lcm skips exactly the empty groups and nothing is rebalanced when all are empty; the scaled weights, their gcd, minimum and maximum range over the groups that have replicas and a non-zero weight; minimum/maximum are updated on `<`/`>` (first value when unset); nothing is rebalanced when all weights are zero; in the final pass the weight is divided by the overflow factor exactly when that factor exceeds 1 and written back to the group."})
+}
+
+func rebalanceStructure(c *core.Ctx) {
+	fn := c.Fn("converters/utils", "RebalanceWeight")
+	if fn == nil {
+		return
+	}
+	lenZero := has(".Length == 0)")
+	wZero := func(k string) bool { return strings.HasSuffix(k, ".Weight == 0)") }
+	// 1. lcm accumulation
+	for _, s := range core.CallsNamed(fn, false, "converters/utils.lcm") {
+		c.Check(guardedBy(s.Instr, lenZero, false), "the replica lcm skips empty groups", at(c, s.Instr), "", "lcm is taken over a group with Length == 0 (division by zero inside lcm) or only over empty groups")
+		c.Check(strings.HasSuffix(core.Key(s.Common().Args[1]), ".Length"), "the lcm is over replica counts", at(c, s.Instr), "", "second argument "+core.Key(s.Common().Args[1]))
+	}
+	// 2. gcd accumulation over scaled weights of non-empty, non-zero groups
+	for _, s := range core.CallsNamed(fn, false, "converters/utils.gcd") {
+		g1 := guardedBy(s.Instr, lenZero, false)
+		g2 := guardedBy(s.Instr, wZero, false)
+		c.Check(g1 && g2, "scaled weights are taken over groups with replicas and a non-zero weight", at(c, s.Instr), "", fmt.Sprintf("Length != 0 on the way: %v, Weight != 0 on the way: %v", g1, g2))
+		k := core.Key(s.Common().Args[1])
+		c.Check(strings.Contains(k, ".Weight * ") && strings.Contains(k, " / ") && strings.HasSuffix(k, ".Length)"), "the scaled weight is weight * lcm / replicas", at(c, s.Instr), "", "scaled weight is "+k)
+	}
+	// 3. early returns: lcmCount == 0 and gcd == 0
+	nRet := 0
+	for _, r := range core.Returns(fn) {
+		gs := guardsOf(r)
+		if len(gs) == 0 {
+			continue
+		}
+		k := core.StripVersion(gs[0].Key)
+		if strings.HasSuffix(k, " == 0)") && gs[0].Branch && strings.Contains(k, "phi{") {
+			nRet++
+		}
+	}
+	c.Check(nRet == 2, "nothing is rebalanced when all groups are empty or all weights are zero", c.Pos(fn.Pos()), "", fmt.Sprintf("%d early returns on an accumulator == 0 (reviewed: lcm and gcd)", nRet))
+	// 4. min / max updates: phi edges fed by the scaled weight under < / >
+	minOK, maxOK := false, false
+	for _, b := range fn.Blocks {
+		ifi, ok := b.Instrs[len(b.Instrs)-1].(*ssa.If)
+		if !ok {
+			continue
+		}
+		bo, ok := ifi.Cond.(*ssa.BinOp)
+		if !ok {
+			continue
+		}
+		kx, ky := core.Key(bo.X), core.Key(bo.Y)
+		scaled := func(k string) bool { return strings.Contains(k, ".Weight * ") && strings.Contains(k, " / ") }
+		_, yPhi := bo.Y.(*ssa.Phi)
+		_ = ky
+		if bo.Op.String() == "<" && scaled(kx) && yPhi {
+			minOK = true
+		}
+		if bo.Op.String() == ">" && scaled(kx) && yPhi {
+			maxOK = true
+		}
+	}
+	c.Check(minOK, "the minimum is lowered when a scaled weight is smaller", c.Pos(fn.Pos()), "", "no `clusterWeight < minWeight` test on the scaled weight")
+	c.Check(maxOK, "the maximum is raised when a scaled weight is greater", c.Pos(fn.Pos()), "", "no `clusterWeight > maxWeight` test on the scaled weight")
+	// 5. final stores
+	var div, plain int
+	for _, st := range fieldStores(fn, false, "converters/utils.WeightCluster", "Weight") {
+		over := guardedBy(st, has(" > 1)"), true)
+		notOver := guardedBy(st, has(" > 1)"), false)
+		l := sliceLeaves(c.Env, st.Val, 0)
+		_ = l
+		k := core.Key(st.Val)
+		switch {
+		case over:
+			div++
+			c.Check(strings.Contains(k, " / ") || strings.Contains(k, "phi{"), "an overflowing weight is divided by the overflow factor", at(c, st), "", "stored value "+k)
+		case notOver:
+			plain++
+		default:
+			c.Violated("final weight is chosen by the overflow factor", at(c, st), "a weight is written back outside both branches of `weightFactor > 1`")
+		}
+	}
+	c.Check(div == 1 && plain == 1, "both branches write the group weight back", c.Pos(fn.Pos()), "", fmt.Sprintf("%d under factor > 1, %d otherwise", div, plain))
+}
